@@ -208,6 +208,8 @@ static Verdict residue(const std::string &at, const Snap &a, const Snap &b, bool
 // may be in the middle of a strtok() walk or hold the pointer an earlier getpwuid() returned - a wrapped call that uses one of them
 // destroys that, which is residue in the calling process even though no descriptor or byte of heap is left behind
 Verdict libc_static_state(const RunResult &r) {
+    for (auto &e : r.hist) if (e.k == "nonreentrant" && e.opi >= 0 && e.s.compare(0, 7, "setvbuf") == 0)
+        return bad("libc-static-state-clobbered:" + e.s, "call #" + std::to_string(e.opi) + " reconfigures a standard stream of the calling program, " + e.s + ": the buffer and buffering mode of that stream are the caller's state (and a buffer lent to it must outlive every later use of the stream by the caller)");
     for (auto &e : r.hist) if (e.k == "nonreentrant" && e.opi >= 0)
         return bad("libc-static-state-clobbered:" + e.s, "call #" + std::to_string(e.opi) + " uses " + e.s + "(), whose state is one static object shared with the calling program: what the caller had there (position of its own strtok walk, the record an earlier call returned) is gone after the wrapped call");
     return ok();
